@@ -209,9 +209,22 @@ def factorAt (F : Factors) (lag : Rat) (f : String) (pidx : Nat) : Option Rat :=
     | none => none
     | some arr => arr[pidx]?
 
+/-- the chained-product clause for ONE cell `c` after the first of its period: `pvals` are the values of the
+previous DEVELOPED cell, `o` the developed cell; a selected field the previous cell has reads `None` when `c`'s own
+value is falsy, else `previous developed value × factor`; every other field keeps `c`'s value -/
+def chainCellOk (F : Factors) (fields : List String) (pidx : Nat) (c : Cell) (pvals : Dict Val) (o : Cell) : Bool :=
+  c.values.all fun (f, v) =>
+    if fields.contains f && pvals.contains f then
+      if isFalsy (some v) then o.values.get? f == some .none
+      else
+        match num? (o.values.get? f), num? (pvals.get? f), factorAt F c.devLag f pidx with
+        | some x, some y, some r => x == y * r
+        | _, _, _ => false
+    else o.values.get? f == some v
+
 /-- one age-to-age slice `s` of the source, replicate `i`, index draws `I`: every cell after the first of its
-period carries, for a selected field, `None` when its own value is falsy, else the previous DEVELOPED value times
-`atas[lag][field][I[lag][field][period_idx]]`; unselected fields keep their value -/
+period satisfies `chainCellOk` against the developed cell before it in its row, with the factor
+`atas[lag][field][I[lag][field][period_idx]]` -/
 def chainOkSlice (s rep : List Cell) (i : Nat) (fields : List String) (I : IdxTable) : Bool :=
   match resampledAtas s fields I with
   | .error _ => true
@@ -224,16 +237,7 @@ def chainOkSlice (s rep : List Cell) (i : Nat) (fields : List String) (I : IdxTa
       | some prev, some o =>
         match repCell rep prev i with
         | none => false
-        | some po =>
-          c.values.all fun (f, v) =>
-            if fields.contains f && po.values.contains f then
-              if isFalsy (some v) then o.values.get? f == some .none
-              else
-                match num? (o.values.get? f), num? (po.values.get? f),
-                      factorAt F c.devLag f ((periodsOf s).idxOf (c.ps, c.pe)) with
-                | some x, some y, some r => x == y * r
-                | _, _, _ => false
-            else o.values.get? f == some v
+        | some po => chainCellOk F fields ((periodsOf s).idxOf (c.ps, c.pe)) c po.values o
 
 /-- identity draws (every period keeps its own factors): the replicate repeats the source, value by value
 (a falsy selected value after the first cell of its period reads `None`) -/
@@ -270,5 +274,53 @@ def weightsOk (s : List Cell) (fields : List String) (tol : Rat) (impl : Factors
     W.length == impl.length && (W.zip impl).all fun p =>
       p.1.1 == p.2.1 && p.1.2.length == p.2.2.length && (p.1.2.zip p.2.2).all fun q =>
         q.1.1 == q.2.1 && closeLists tol q.1.2 q.2.2
+
+/-! ### maximum entropy: INDEPENDENT restatement of the quantile function (centre / width form)
+
+Nothing below calls `meQuantiles`, `meQuantile`, `quantileOn`, `meIdx`, `zAt`, `meanAt`, `shiftAt`, `y0At`, `y1At`.
+For a draw `u ∈ [0, 1)` on a series of `n ≥ 2` sorted values `x` with outer ends `lo`, `hi`:
+grid cell `i = ⌊u·n⌋`; the cell's interval has CENTRE `(3x₀+x₁)/4`, `(x_{i-1}+2x_i+x_{i+1})/4`, `(3x_{n-1}+x_{n-2})/4`
+(first / interior / last) and WIDTH `right − left` with `left = lo` or `(x_{i-1}+x_i)/2`, `right = hi` or
+`(x_i+x_{i+1})/2`; that is the interval `[z_i + shift_i, z_{i+1} + shift_i]` of the code. The value is the
+linear interpolation `centre + ((u·n − i) − 1/2)·width`. (`Properties.C17.me_centre_width`: equal to the model.) -/
+
+def cwCentre (sx : List Rat) (i : Nat) : Rat :=
+  if i = 0 then (3 * sx.getD 0 0 + sx.getD 1 0) / 4
+  else if i + 1 = sx.length then (3 * sx.getD i 0 + sx.getD (i - 1) 0) / 4
+  else (sx.getD (i - 1) 0 + 2 * sx.getD i 0 + sx.getD (i + 1) 0) / 4
+
+def cwWidth (sx : List Rat) (lo hi : Rat) (i : Nat) : Rat :=
+  (if i + 1 = sx.length then hi else (sx.getD i 0 + sx.getD (i + 1) 0) / 2) -
+  (if i = 0 then lo else (sx.getD (i - 1) 0 + sx.getD i 0) / 2)
+
+def cwCell (n : Nat) (u : Rat) : Nat := (u * (n : Rat)).floor.toNat
+
+def cwValue (sx : List Rat) (lo hi u : Rat) : Rat :=
+  let i := cwCell sx.length u
+  cwCentre sx i + ((u * (sx.length : Rat) - (i : Rat)) - 1 / 2) * cwWidth sx lo hi i
+
+/-- the restatement speaks about: at least two values, at least as many draws, all draws in `[0, 1)` -/
+def meCWApplies (xs U : List Rat) : Bool :=
+  decide (2 ≤ xs.length) && decide (xs.length ≤ U.length) && U.all fun u => decide (0 ≤ u) && decide (u < 1)
+
+/-- the replicate is, as a multiset, the centre/width interpolation of the `n` smallest draws; together with
+`rankFixed` (which value sits where) this determines the replicate -/
+def meValueCWOk (xs U : List Rat) (L : Option (Rat × Rat)) (tol : Rat) (r : List Rat) : Bool :=
+  if meCWApplies xs U then
+    let sx := sortQ xs
+    let lim := meLimits xs L
+    closeLists tol (sortQ (((sortQ U).take xs.length).map (cwValue sx lim.1 lim.2))) (sortQ r)
+  else true
+
+/-- every value lies in one of the `n` cell intervals `centre ± |width|/2` -/
+def meIntervalsCWOk (xs : List Rat) (L : Option (Rat × Rat)) (tol : Rat) (r : List Rat) : Bool :=
+  if decide (2 ≤ xs.length) then
+    let sx := sortQ xs
+    let lim := meLimits xs L
+    let cells := (List.range xs.length).map fun i =>
+      let w := cwWidth sx lim.1 lim.2 i
+      (cwCentre sx i, (if w < 0 then -w else w) / 2)
+    r.all fun q => cells.any fun cw => decide (cw.1 - cw.2 - tol ≤ q) && decide (q ≤ cw.1 + cw.2 + tol)
+  else true
 
 end Bermuda.Spec.C17
